@@ -56,7 +56,11 @@ func registerIntrinsics(p *Program) {
 		return sym.BVC(64, uint64(k)), true
 	})
 	h("vNote", func(e *Exec, _ *frame, _ *ssa.Function, a []Value) (Value, bool) {
-		e.notes = append(e.notes, e.cstr(a[0]))
+		if s, ok := a[0].(Str); ok && s.Concrete() {
+			e.notes = append(e.notes, s.S)
+		} else {
+			e.notes = append(e.notes, "(symbolic text)")
+		}
 		return nil, true
 	})
 	h("vParam", func(e *Exec, _ *frame, _ *ssa.Function, a []Value) (Value, bool) {
